@@ -126,7 +126,9 @@ def run_case(case):
                         calls = [({"bt": bt, "tr": tr}, lambda kw, p=p: rel.join(fixed, p, **kw)) for bt in (True, False) for tr in (False, True)]
                     elif edit == "unsupported_join_pred":
                         expected = R.EngineError
-                        p = exprs.plib(["rcmp", "ge", ["ref", "a"], ["lit", 0], none_supported])
+                        base_p = ["rcmp", "ge", ["ref", "a"], ["lit", 0], none_supported]
+                        # also as part of a predicate that folds to True: the node would still hold it
+                        p = exprs.plib(rng.choice([base_p, ["or", [base_p, ["plit", True]], "ctor"], ["not", ["and", [base_p, ["plit", False]], "ctor"]]]))
                         calls = [({"bt": bt, "tr": tr}, lambda kw, p=p: rel.join(fixed, p, **kw)) for bt in (True, False) for tr in (False, True)]
                     else:
                         expected = R.EngineError
